@@ -59,12 +59,6 @@ def verify_file(m):
     if got != want:
         d = next((i for i in range(min(len(got), len(want))) if got[i] != want[i]), min(len(got), len(want)))
         out.append(("payload|" + tag, "concatenated payload differs from the objects' encodings at offset %d (%d vs %d bytes)" % (d, len(got), len(want))))
-    # non-final containers are full
-    body = [c for c in cs if c["uncompressedSize"]]
-    for c in body[:-1]:
-        if c["uncompressedSize"] != m["cont"]:
-            out.append(("short|" + tag, "a container before the last holds %d bytes instead of %d" % (c["uncompressedSize"], m["cont"])))
-            break
     return out
 
 
